@@ -15,6 +15,12 @@ Engine T x G.  Three families of pool cases, every one enumerated completely:
 References are written from the property statement: explicit bracketing in exact rationals, window sums
 with clamped indices, split sums about the exact side means.  The design-spectrum claims are relations
 between the three functions (no table of expected values is used).
+
+Round 3 (general lessons): every array argument of the five array helpers is one object per container for the whole call
+sequence of its case (snapshot after every call), every returned array is overwritten in place after a private copy was
+taken; short words also as int64 / tuple / int16 / uint8 (large steps) / float32 and at the scales 2^-30, 2^20 and on a
+level of 2^20; tables and node sets likewise, with queries 1e-7 on either side of every node; A-B-A and
+explicit-then-default call sequences; (Z, R, N) with Z*R below, on and above 0.7.
 """
 import contextlib
 import io
@@ -25,7 +31,7 @@ import numpy as np
 
 from ..target import eqsig, design_spectra
 from ..result import Res
-from ..compare import words
+from ..compare import words, snapshot, bits_equal
 
 fns = eqsig.fns
 
@@ -35,7 +41,9 @@ NODESETS = (('single', (1.5,)), ('two', (-2.0, 1.0)), ('uniform', (0.0, 1.0, 2.0
             ('nonuniform', (0.0, 0.5, 3.0, 3.1)), ('wide', (0.0, 1.0, 10.0, 11.0, 100.0)))
 MODES = ('forward', 'backward', 'centre', 'center')
 SITE = ('C', 'D', 'E')
-ZRN = ((0.4, 1.0, 1.0), (0.13, 1.8, 1.2))
+# (Z, R, N): products Z*R below, exactly on and above 0.7 (the value NZS 1170.5 mentions as an upper limit of Z*R: the three
+# functions must stay consistent with each other on both sides of it), N on both sides of 1
+ZRN = ((0.4, 1.0, 1.0), (0.13, 1.8, 1.2), (0.7, 1.0, 1.0), (0.4, 1.8, 1.0), (0.6, 1.3, 1.2), (1.0, 1.0, 1.0))
 BOUNDS_T = (0.1, 0.3, 0.56, 1.0, 1.5, 3.0)     # every segment boundary of the three site classes
 EPS_T = 1e-12
 INTERIOR_T = (0.0, 1e-9, 0.05, 0.2, 0.4, 0.8, 1.2, 2.0, 2.5, 4.5, 10.0)
@@ -45,6 +53,42 @@ INT_T = (0, 1, 2, 3, 4, 5, 10)
 MIXED_T = (0, 0.4, 1, 2.5, 3)
 G = 9.81
 CONT_TOL = 0.005
+
+# ---- containers / dtypes / scalings of the series handed to the averaging and step-fit helpers.  The actual samples are
+#      w*mult + offset, exactly representable in the listed type (so the references stay exact rationals of the values
+#      actually passed); narrow and unsigned integer types carry large steps (window sums leave the type's range);
+#      2^-30 (~1e-9) and 2^20 (~1e6) are the scale-free sub-families; w + 2^20 rides on a large common level (samples
+#      differ by ~1e-6 of their size).  'kinds': r = rolling average, l = step levels at a given split, e = step error
+#      / dir option / automatic split (float64 only: integer input of the step error is the open finding
+#      step-error-int-truncation and float32 input is answered in float32).
+P30 = Fraction(1, 2 ** 30)
+P20 = 2 ** 20
+WORD_VARIANTS = (
+    ('ndarray-i64', 1, 0, np.int64, 'rl'),
+    ('tuple-int', 1, 0, tuple, 'rl'),
+    ('ndarray-i16 (w*10000)', 10000, 0, np.int16, 'rl'),
+    ('ndarray-u8 (w*50+100)', 50, 100, np.uint8, 'rl'),
+    ('ndarray-f32', 1, 0, np.float32, 'r'),
+    ('ndarray-f64 (w*2^-30)', P30, 0, float, 'rle'),
+    ('ndarray-f64 (w*2^20)', P20, 0, float, 'rle'),
+    ('ndarray-f64 (w+2^20)', 1, P20, float, 'rle'),
+)
+ROLL_VARIANT_MODES = (None, 'backward', 'centre')
+VARIANT_MAX_LEN = 5
+# table / node variants of the interpolation helpers (same idea; node scalings are applied to nodes AND queries)
+TABLE_VARIANTS = (
+    ('i16 (f*3000)', 3000, 0, np.int16),
+    ('u8 (f*25+25)', 25, 25, np.uint8),
+    ('f32', 1, 0, np.float32),
+    ('f64 (f*2^-30)', P30, 0, float),
+    ('f64 (f*2^20)', P20, 0, float),
+    ('f64 (f+2^20)', 1, P20, float),
+)
+# RESTRICTED: nodes * 2^-30 is NOT in the menu - interp2d clips the node spacing at 1e-10 ("to avoid divide by zero"), so
+# tables whose nodes are closer than 1e-10 are interpolated wrongly on the unchanged tree (reported; shortest input
+# interp2d([2.5e-11], [0, 5e-11], [[0], [1]]) -> 0.25 instead of 0.5).  2^-20 keeps every spacing of the menu above 1e-10.
+NODE_VARIANTS = (('x*2^-20', Fraction(1, 2 ** 20), 0), ('x*2^20', P20, 0), ('x+2^20', 1, P20))
+NEAR = 1e-7      # queries this far (relative; absolute next to 0) on either side of every node
 
 CASE_TIMEOUT = 120
 
@@ -82,12 +126,23 @@ def build(tier, seed):
                 'window 1..len x 4 modes x 2 containers, and (length>=3) pow in {1,2} x dir in {None,up,down} x every '
                 'split; spectra: 3 site classes x 2 (Z,R,N) x %d periods x scalar/array/list/tuple forms, plus the whole-second '
                 'periods %s as int list / int tuple / int64 and int32 ndarray (and one-element and mixed int-float lists) '
-                'through c_h_factor and sd_nzs.  non-trivial = table not identically zero / word not constant / every '
-                'spectra case' % (L, len(period_grid()), list(INT_T)),
+                'through c_h_factor and sd_nzs.  Every array argument of interp2d / interp_left / calc_roll_av_vals / '
+                'calc_step_fn_vals_error / calc_step_fn_steps_vals is ONE object per container that goes into the whole call '
+                'sequence of its case (snapshot after every call; returned arrays are overwritten in place after a private '
+                'copy was taken); words of length <= %d also as %s (rolling average, modes default/backward/centre; step levels; '
+                'float64 variants also step error, dir and automatic split); tables also as %s and nodes+queries as %s, every '
+                'variant with queries 1e-7 on either side of every node; A-B-A sequences for interp2d, the rolling average, '
+                'c_h_factor and sd_nzs; (Z,R,N) in %s (Z*R below, on and above 0.7).  non-trivial = table not identically '
+                'zero / word not constant / every spectra case'
+                % (L, len(period_grid()), list(INT_T), VARIANT_MAX_LEN, [v[0] for v in WORD_VARIANTS],
+                   [v[0] for v in TABLE_VARIANTS], [v[0] for v in NODE_VARIANTS], [list(z) for z in ZRN]),
         'bounds': {'columns': COLS, 'node_sets': [list(n) for _, n in NODESETS], 'word_alphabet': SIGMA,
                    'max_len': L, 'modes': MODES, 'pow': [1, 2], 'dir': [None, 'up', 'down'], 'site': SITE,
                    'ZRN': ZRN, 'periods': period_grid(), 'integer_periods': INT_T, 'mixed_periods': MIXED_T,
-                   'integer_period_containers': ['list', 'tuple', 'ndarray int64', 'ndarray int32']},
+                   'integer_period_containers': ['list', 'tuple', 'ndarray int64', 'ndarray int32'],
+                   'word_variants': [v[0] for v in WORD_VARIANTS], 'word_variant_max_len': VARIANT_MAX_LEN,
+                   'table_variants': [v[0] for v in TABLE_VARIANTS], 'node_variants': [v[0] for v in NODE_VARIANTS],
+                   'near_node_query_offset': NEAR},
         'required_classes': [
             'nodes-single', 'nodes-two', 'nodes-uniform', 'nodes-nonuniform', 'nodes-wide', 'q-on-node',
             'q-interior', 'q-below-range', 'q-above-range', 'q-nearer-upper-node', 'q-nearer-lower-node',
@@ -102,7 +157,11 @@ def build(tier, seed):
             'spectra-array-form', 'spectra-list-form', 'spectra-tuple-form', 'spectra-int-list-form',
             'spectra-int-tuple-form', 'spectra-int-ndarray-form', 'sd-array-form', 'sd-int-container-form',
             'teff-below-corner', 'teff-beyond-corner',
-            'reject-negative-period', 'reject-negative-int-period', 'reject-site-class'],
+            'reject-negative-period', 'reject-negative-int-period', 'reject-site-class',
+            'argument-reused', 'aba-interp', 'aba-roll', 'aba-spectra', 'step-default-after-explicit',
+            'variant-ndarray-i64', 'variant-tuple-int', 'variant-ndarray-i16-transformed', 'variant-ndarray-u8-transformed',
+            'variant-ndarray-f32', 'variant-ndarray-f64-transformed', 'interp-variant-nodes-transformed',
+            'interp-variant-table-transformed', 'zr-product-above-0.7', 'zr-product-at-most-0.7'],
         'assumptions': [
             'node sets, table entries, sample values, window sizes, powers and (Z,R,N) outside the menus are not '
             'examined; decreasing node sets and interp_left queries below the first node are outside the documented '
@@ -118,6 +177,13 @@ def build(tier, seed):
             'design spectra: only relations between c_h_factor, sd_nzs and t_eff are checked (no external table); '
             'corner displacement d_c = sd_nzs(3.0) * 9.81 / (2 pi)^2',
             'sd_nzs is documented as "period: float or array", so array periods are in its domain',
+            'a query leaves its argument containers unchanged (bit for bit) and returns arrays the caller may overwrite',
+            'transformed variants: samples w*mult+offset exactly representable in the stated type; references are exact '
+            'rationals of the values actually passed, tolerances relative to their peak; integer and float32 input of the '
+            'step error is not examined beyond the historical int list (open finding step-error-int-truncation; float32 input '
+            'is answered in float32); float32 input of the step levels is answered in float32 and not examined',
+            'RESTRICTED: node sets scaled by 2^-30 are not in the menu (interp2d clips node spacings at 1e-10: reported '
+            'violation on the unchanged tree for nodes closer than 1e-10); the scaled-node variants use 2^-20 and 2^20',
             'a bare Python int as scalar period (c_h_factor(2)) is not examined: the scalar form is exercised with float '
             'and numpy.float64 only; whole-second periods are examined inside list / tuple / ndarray containers'],
     }
@@ -191,7 +257,72 @@ def mean_fr(xs):
     return Fraction(sum(xs), len(xs)) if len(xs) else None
 
 
+# ------------------------------------------------------------------------------- shared arguments
+class Shared(object):
+    """One argument container that is handed, as the same object, to a whole sequence of calls (the way a caller
+    evaluates several windows / modes / query sets on one series or table).  A query leaves its arguments alone: the
+    container is snapshot-checked after every call (and restored if it was modified, so that the remaining
+    comparisons of the case keep their meaning)."""
+
+    def __init__(self, name, obj):
+        self.name = name
+        self.obj = obj
+        self.snap = snapshot(obj)
+        self.saved = obj.copy() if isinstance(obj, np.ndarray) else (list(obj) if isinstance(obj, list) else obj)
+
+    def verify(self, r, sub):
+        r.n_cmp += 1
+        r.cls('argument-reused')
+        if snapshot(self.obj) != self.snap:
+            r.fail('argument-unchanged', dict(sub, argument=self.name),
+                   "the caller's %s was modified by the call" % self.name, observed=self.obj, expected=self.saved)
+            if isinstance(self.obj, np.ndarray):
+                self.obj[...] = self.saved
+            elif isinstance(self.obj, list):
+                self.obj[:] = self.saved
+
+
+def call_shared(r, claim, sub, shared, fn, *args, **kw):
+    """r.call + (d) the returned array is overwritten in place after a private copy was taken (a result that is a view
+    of an argument or of something the function keeps would show in the argument snapshots / in the next call) +
+    the snapshot check of every shared argument."""
+    ok, out = r.call(claim, sub, fn, *args, **kw)
+    if ok and isinstance(out, np.ndarray) and out.ndim >= 1 and out.size:
+        keep = out.copy()
+        try:
+            out[...] = 77
+        except Exception:
+            pass
+        out = keep
+    for sh in shared:
+        sh.verify(r, sub)
+    return ok, out
+
+
+def affine(v, mult, offset):
+    """exact rational of the transformed sample"""
+    return Fraction(v) * Fraction(mult) + Fraction(offset)
+
+
+def build_arr(vals_fr, typ):
+    """container of the exact rationals (all exactly representable in the requested type)"""
+    if typ is tuple:
+        return tuple(int(v) for v in vals_fr)
+    if typ is list:
+        return [int(v) for v in vals_fr]
+    if typ in (float, np.float32):
+        a = np.array([float(v) for v in vals_fr], dtype=typ)
+    else:
+        a = np.array([int(v) for v in vals_fr], dtype=typ)
+    assert all(Fraction(float(x)) == v for x, v in zip(a.ravel().tolist(), vals_fr)), 'sample not representable'
+    return a
+
+
 # ------------------------------------------------------------------------------------------ interp
+def near_queries(xf, unit):
+    return sorted(set([x - NEAR * unit for x in xf] + [x + NEAR * unit for x in xf]))
+
+
 def run_interp(r, case):
     xf = [float(x) for x in case['xf']]
     table = case['f']
@@ -221,28 +352,42 @@ def run_interp(r, case):
             else:
                 r.cls('q-nearer-upper-node')
     want = [[float(ref_lin(q, xf, c)) for c in cols] for q in qs]
+    # the node array and the table are built once per variant and the SAME objects go into every call of the variant
     xf_a = np.array(xf)
     f_a = np.array(table, dtype=float)
-    variants = [('float', xf_a, f_a)]
+    sh_x = Shared('xf', xf_a)
+    sh_f = Shared('f', f_a)
+    variants = [('float', sh_x, sh_f)]
     if all(x == int(x) for x in xf):
-        variants.append(('int', np.array([int(x) for x in xf]), np.array(table, dtype=np.int64)))
+        variants.append(('int', Shared('xf', np.array([int(x) for x in xf])), Shared('f', np.array(table, dtype=np.int64))))
         r.cls('table-int')
-    for vname, xv, fv in variants:
-        sub = dict(base, fn='interp2d', dtype=vname, x='sorted')
-        r.states += 1
-        ok, out = r.call('interp2d', sub, fns.interp2d, np.array(qs), xv.copy(), fv.copy())
-        if ok:
-            r.expect_close('interp2d', sub, out, want, rtol=1e-9, atol=1e-12, scale=scale)
-        sub = dict(base, fn='interp2d', dtype=vname, x='reversed')
+    first = {}
+    for vname, sx, sf in variants:
+        for order, qv, wv in (('sorted', qs, want), ('reversed', qs[::-1], want[::-1])):
+            sub = dict(base, fn='interp2d', dtype=vname, x=order)
+            r.states += 1
+            if order == 'reversed':
+                r.transitions += 1
+            sq = Shared('x', np.array(qv))
+            ok, out = call_shared(r, 'interp2d', sub, (sq, sx, sf), fns.interp2d, sq.obj, sx.obj, sf.obj)
+            if ok:
+                r.expect_close('interp2d', sub, out, wv, rtol=1e-9, atol=1e-12, scale=scale)
+                first[(vname, order)] = out
+    # (e) A-B-A: the sorted query set again after the reversed one (same length, same end values up to order) - same answer
+    if ('float', 'sorted') in first:
+        sub = dict(base, fn='interp2d', dtype='float', x='sorted', when='again-after-reversed')
         r.states += 1
         r.transitions += 1
-        ok, out = r.call('interp2d', sub, fns.interp2d, np.array(qs[::-1]), xv.copy(), fv.copy())
+        r.cls('aba-interp')
+        ok, out = call_shared(r, 'interp2d.repeatable', sub, (sh_x, sh_f), fns.interp2d, np.array(qs), xf_a, f_a)
         if ok:
-            r.expect_close('interp2d', sub, out, want[::-1], rtol=1e-9, atol=1e-12, scale=scale)
+            r.expect('interp2d.repeatable', sub, bits_equal(out, first[('float', 'sorted')]),
+                     'the same call gives a different result after a call with other queries', observed=out,
+                     expected=first[('float', 'sorted')])
     for q, wq in zip(qs, want):
         sub = dict(base, fn='interp2d', dtype='float', x=[q])
         r.states += 1
-        ok, out = r.call('interp2d', sub, fns.interp2d, np.array([q]), xf_a.copy(), f_a.copy())
+        ok, out = call_shared(r, 'interp2d', sub, (sh_x, sh_f), fns.interp2d, np.array([q]), xf_a, f_a)
         if ok:
             r.expect_close('interp2d', sub, out, [wq], rtol=1e-9, atol=1e-12, scale=scale)
 
@@ -251,31 +396,34 @@ def run_interp(r, case):
     idx = [ref_left_index(q, xf) for q in ql]
     for q in ql:
         r.cls('left-on-node' if q in xf else 'left-above-last-node' if q > xf[-1] else 'left-between-nodes')
+    sh_ql = Shared('x0', np.array(ql))
     for j, c in enumerate(cols):
         yw = [float(c[i]) for i in idx]
+        sh_y = Shared('y', np.array(c, dtype=float))
         sub = dict(base, fn='interp_left', col=j, x0='ndarray')
         r.states += 1
         r.cls('left-array')
-        ok, out = r.call('interp_left', sub, fns.interp_left, np.array(ql), xf_a.copy(), np.array(c, dtype=float))
+        ok, out = call_shared(r, 'interp_left', sub, (sh_ql, sh_x, sh_y), fns.interp_left, sh_ql.obj, xf_a, sh_y.obj)
         if ok:
             r.expect_close('interp_left', sub, out, yw, rtol=1e-12, atol=0.0, scale=scale)
         sub = dict(base, fn='interp_left', col=j, x0='list')
         r.states += 1
         r.cls('left-list')
-        ok, out = r.call('interp_left', sub, fns.interp_left, list(ql), list(xf), [float(v) for v in c])
+        lists = (Shared('x0', list(ql)), Shared('x', list(xf)), Shared('y', [float(v) for v in c]))
+        ok, out = call_shared(r, 'interp_left', sub, lists, fns.interp_left, lists[0].obj, lists[1].obj, lists[2].obj)
         if ok:
             r.expect_close('interp_left', sub, out, yw, rtol=1e-12, atol=0.0, scale=scale)
         for q, y1 in zip(ql, yw):
             sub = dict(base, fn='interp_left', col=j, x0=q)
             r.states += 1
             r.cls('left-scalar')
-            ok, out = r.call('interp_left', sub, fns.interp_left, q, xf_a.copy(), np.array(c, dtype=float))
+            ok, out = call_shared(r, 'interp_left', sub, (sh_x, sh_y), fns.interp_left, q, xf_a, sh_y.obj)
             if ok:
                 r.expect_close('interp_left', sub, out, y1, rtol=1e-12, atol=0.0, scale=scale)
     sub = dict(base, fn='interp_left', col=None, x0='ndarray')
     r.states += 1
     r.cls('left-default-y')
-    ok, out = r.call('interp_left.default-y', sub, fns.interp_left, np.array(ql), xf_a.copy())
+    ok, out = call_shared(r, 'interp_left.default-y', sub, (sh_ql, sh_x), fns.interp_left, sh_ql.obj, xf_a)
     if ok:
         r.expect_ints('interp_left.default-y', sub, out, idx)
         r.expect('interp_left.default-y', sub, np.shape(out) == (len(ql),), 'shape %s' % (np.shape(out),), observed=out)
@@ -286,6 +434,50 @@ def run_interp(r, case):
         if ok:
             r.expect('interp_left.default-y', sub, np.ndim(out) == 0 and _is_int(out) and int(out) == i1,
                      'scalar query %r -> %r, expected node index %d' % (q, out, i1), observed=out, expected=i1)
+
+    # ---- variants: (nodes, queries) scaled / shifted, and tables in other dtypes / scales; every variant also gets
+    #      queries 1e-7 (relative to the variant's unit) on either side of every node.  References: exact rationals of
+    #      the values actually passed.
+    def block(ntag, nmult, noff, ttag, tmult, toff, ttyp):
+        xv = [float(affine(Fraction(x), nmult, noff)) for x in xf]      # rounded to float; the reference uses these floats
+        unit = float(nmult)
+        qv = sorted(set(query_menu(xv)) | set(near_queries(xv, unit)))
+        colv = [[affine(v, tmult, toff) for v in c] for c in cols]
+        wantv = [[float(ref_lin(q, xv, c)) for c in colv] for q in qv]
+        sc = float(max(abs(v) for c in colv for v in c)) or float(tmult)
+        sub0 = dict(base, nodes=ntag, table=ttag)
+        r.cls('interp-variant-nodes-%s' % ('plain' if ntag == 'x' else 'transformed'))
+        r.cls('interp-variant-table-%s' % ('plain' if ttag == 'f64' else 'transformed'))
+        sx = Shared('xf', np.array(xv))
+        sf = Shared('f', build_arr([affine(v, tmult, toff) for row in table for v in row], ttyp).reshape(len(xf), ncol))
+        for order, qq, ww in (('sorted', qv, wantv), ('reversed', qv[::-1], wantv[::-1])):
+            sub = dict(sub0, fn='interp2d', x=order)
+            r.states += 1
+            sq = Shared('x', np.array(qq))
+            ok, out = call_shared(r, 'interp2d', sub, (sq, sx, sf), fns.interp2d, sq.obj, sx.obj, sf.obj)
+            if ok:
+                r.expect_close('interp2d', sub, out, ww, rtol=1e-9, atol=0.0, scale=sc)
+        qlv = [q for q in qv if q >= xv[0]]
+        idv = [ref_left_index(q, xv) for q in qlv]
+        sq = Shared('x0', np.array(qlv))
+        for j, c in enumerate(colv):
+            sy = Shared('y', build_arr(c, ttyp))
+            sub = dict(sub0, fn='interp_left', col=j, x0='ndarray')
+            r.states += 1
+            ok, out = call_shared(r, 'interp_left', sub, (sq, sx, sy), fns.interp_left, sq.obj, sx.obj, sy.obj)
+            if ok:
+                r.expect_close('interp_left', sub, out, [float(c[i]) for i in idv], rtol=1e-12, atol=0.0, scale=sc)
+        sub = dict(sub0, fn='interp_left', col=None, x0='ndarray')
+        r.states += 1
+        ok, out = call_shared(r, 'interp_left.default-y', sub, (sq, sx), fns.interp_left, sq.obj, sx.obj)
+        if ok:
+            r.expect_ints('interp_left.default-y', sub, out, idv)
+
+    block('x', 1, 0, 'f64', 1, 0, float)            # plain nodes and table with the near-node queries
+    for ttag, tmult, toff, ttyp in TABLE_VARIANTS:
+        block('x', 1, 0, ttag, tmult, toff, ttyp)
+    for ntag, nmult, noff in NODE_VARIANTS:
+        block(ntag, nmult, noff, 'f64', 1, 0, float)
 
 
 def _is_int(x):
@@ -299,70 +491,111 @@ def _is_int(x):
 def run_word(r, case):
     w = [int(v) for v in case['w']]
     n = len(w)
-    amax = max(abs(v) for v in w)
-    const = len(set(w)) == 1
-    if not const:
+    if len(set(w)) > 1:
         r.nontrivial += 1
-    a_f = np.array(w, dtype=float)
+    # the two historical containers: float64 ndarray (everything) and list of ints
+    word_checks(r, w, 'ndarray-f64', 1, 0, float, 'rle', plain=True)
+    if n > VARIANT_MAX_LEN:      # container / dtype / scale handling is not a pattern question: words up to this length, both tiers
+        return
+    for tag, mult, off, typ, kinds in WORD_VARIANTS:
+        r.cls('variant-' + tag.split(' ')[0] + ('' if ' ' not in tag else '-transformed'))
+        word_checks(r, w, tag, mult, off, typ, kinds, plain=False)
+
+
+def word_checks(r, w, tag, mult, off, typ, kinds, plain):
+    """All helper checks for one container of one word.  The container is built ONCE and the same object is handed to
+    every call (all windows, modes, powers, dir options, splits); it is snapshot-checked after every call."""
+    n = len(w)
+    wx = [affine(v, mult, off) for v in w]                  # exact values actually passed
+    unit = float(mult)
+    amax = float(max(abs(v) for v in wx))
+    const = len(set(w)) == 1
+    sh = Shared('values', build_arr(wx, typ))
+    arg = sh.obj
+    sh_list = Shared('values', list(w)) if plain else None
 
     # ---- rolling average
     for steps in range(1, n + 1):
-        r.cls('roll-window-even' if steps % 2 == 0 else 'roll-window-odd')
-        if steps == 1:
-            r.cls('roll-window-1')
-        if steps == n:
-            r.cls('roll-window-full')
+        if plain:
+            r.cls('roll-window-even' if steps % 2 == 0 else 'roll-window-odd')
+            if steps == 1:
+                r.cls('roll-window-1')
+            if steps == n:
+                r.cls('roll-window-full')
         outs = {}
-        for cont, modes in (('ndarray-f64', MODES), ('list-int', (None, 'backward', 'centre'))):
+        plan = ((tag, sh, MODES), ('list-int', sh_list, (None, 'backward', 'centre'))) if plain else \
+            ((tag, sh, ROLL_VARIANT_MODES),)
+        for cont, shc, modes in plan:
             for mode in modes:
                 sub = {'w': w, 'steps': steps, 'mode': mode, 'values': cont}
                 rmode = 'forward' if mode is None else 'centre' if mode == 'center' else mode
-                want = ref_roll(w, steps, rmode)
+                want = [float(v) for v in ref_roll(wx if cont == tag else w, steps, rmode)]
                 r.states += 1
-                r.cls('roll-' + (mode or 'default-mode'))
+                if plain:
+                    r.cls('roll-' + (mode or 'default-mode'))
                 if cont == 'list-int':
                     r.cls('roll-list-int')
-                vals = a_f.copy() if cont == 'ndarray-f64' else list(w)
                 if mode is None:
-                    ok, out = r.call('roll', sub, fns.calc_roll_av_vals, vals, steps)
+                    ok, out = call_shared(r, 'roll', sub, (shc,), fns.calc_roll_av_vals, shc.obj, steps)
                 else:
-                    ok, out = r.call('roll', sub, fns.calc_roll_av_vals, vals, steps, mode=mode)
+                    ok, out = call_shared(r, 'roll', sub, (shc,), fns.calc_roll_av_vals, shc.obj, steps, mode=mode)
                 if not ok:
                     continue
                 try:
                     ln = len(out)
                 except Exception:
                     ln = None
+                sc = amax if cont == tag else float(max(abs(v) for v in w))
                 r.expect('roll.length', sub, ln == n, 'output length %r, input length %d' % (ln, n), observed=out)
-                r.expect_close('roll.mean', sub, out, want, rtol=1e-12, atol=1e-13, scale=float(amax))
+                r.expect_close('roll.mean', sub, out, want, rtol=1e-12, atol=1e-13 * unit, scale=sc)
                 if const:
                     r.cls('roll-constant-word')
-                    r.expect_close('roll.constant', sub, out, [float(w[0])] * n, rtol=1e-12, atol=1e-13,
-                                   scale=float(amax))
+                    r.expect_close('roll.constant', sub, out, [float(wx[0] if cont == tag else w[0])] * n, rtol=1e-12,
+                                   atol=1e-13 * unit, scale=sc)
                 outs[(cont, mode)] = out
-        if ('ndarray-f64', 'centre') in outs and ('ndarray-f64', 'center') in outs:
+        if (tag, 'centre') in outs and (tag, 'center') in outs:
             r.transitions += 1
-            r.expect_close('roll.centre-center', {'w': w, 'steps': steps}, outs[('ndarray-f64', 'center')],
-                           outs[('ndarray-f64', 'centre')], rtol=1e-12, atol=1e-13, scale=float(amax))
+            r.expect_close('roll.centre-center', {'w': w, 'steps': steps}, outs[(tag, 'center')],
+                           outs[(tag, 'centre')], rtol=1e-12, atol=1e-13, scale=float(amax))
+        # (e) A-B-A: between two identical calls on the word, the same call on a word of the same length with the same
+        # first and last sample (an interior sample differs): first and third result identical, second right
+        if plain and n >= 3 and (tag, 'centre') in outs:
+            wb = list(w)
+            wb[n // 2] += 1
+            sub = {'w': w, 'steps': steps, 'mode': 'centre', 'values': tag, 'between': wb}
+            r.states += 2
+            r.transitions += 2
+            r.cls('aba-roll')
+            okb, outb = r.call('roll', sub, fns.calc_roll_av_vals, np.array(wb, dtype=float), steps, mode='centre')
+            if okb:
+                r.expect_close('roll.mean', sub, outb, ref_roll(wb, steps, 'centre'), rtol=1e-12, atol=1e-13,
+                               scale=float(max(abs(v) for v in wb)))
+            ok3, out3 = call_shared(r, 'roll.repeatable', sub, (sh,), fns.calc_roll_av_vals, arg, steps, mode='centre')
+            if ok3:
+                r.expect('roll.repeatable', sub, bits_equal(out3, outs[(tag, 'centre')]),
+                         'the same call gives a different result after a call on another series', observed=out3,
+                         expected=outs[(tag, 'centre')])
     if n < 3:
         return
 
     # ---- step-function error
-    neg_mean = any((sum(w[:i + 1]) < 0) or (i + 1 < n and sum(w[i + 1:]) < 0) or sum(w[i:]) < 0 for i in range(n))
-    data_cls = 'step-nonneg-data' if min(w) >= 0 else 'step-neg-side-mean' if neg_mean else 'step-mixed-data'
-    for p in (1, 2):
-        r.cls('step-pow%d' % p)
-        r.cls(data_cls)
-        want = [float(e) for e in ref_step_err(w, p)]
-        scale = float(max(1, n * amax ** p))
-        sub = {'w': w, 'pow': p, 'values': 'ndarray-f64'}
+    if 'e' in kinds:
+        neg_mean = any((sum(wx[:i + 1]) < 0) or (i + 1 < n and sum(wx[i + 1:]) < 0) or sum(wx[i:]) < 0 for i in range(n))
+        data_cls = 'step-nonneg-data' if min(wx) >= 0 else 'step-neg-side-mean' if neg_mean else 'step-mixed-data'
+    for p in ((1, 2) if 'e' in kinds else ()):
+        if plain:
+            r.cls('step-pow%d' % p)
+            r.cls(data_cls)
+        want = [float(e) for e in ref_step_err(wx, p)]
+        scale = float(max(1, n * amax ** p)) if plain else max(unit ** p, n * amax ** p)
+        sub = {'w': w, 'pow': p, 'values': tag}
         r.states += 1
-        ok, e0 = r.call('step-error', sub, fns.calc_step_fn_vals_error, a_f.copy(), pow=p)
+        ok, e0 = call_shared(r, 'step-error', sub, (sh,), fns.calc_step_fn_vals_error, arg, pow=p)
         if ok:
             r.expect_close('step-error', sub, e0, want, rtol=1e-9, atol=0.0, scale=scale)
         # integer-valued list input: a dtype-handling question, not a pattern question - kept to words of length <= 6 in
         # both tiers (the open known finding 'step-error-int-truncation' lists every failing key of this sub-claim)
-        if n <= 6:
+        if plain and n <= 6:
             sub = {'w': w, 'pow': p, 'values': 'list-int'}
             r.states += 1
             r.cls('step-list-int')
@@ -382,9 +615,11 @@ def run_word(r, case):
         big = 10.0 * max(base)
         for d in ('up', 'down'):
             sub = {'w': w, 'pow': p, 'dir': d}
+            if not plain:
+                sub['values'] = tag
             r.states += 1
             r.transitions += 1
-            ok, ed = r.call('step-error.dir', sub, fns.calc_step_fn_vals_error, a_f.copy(), pow=p, dir=d)
+            ok, ed = call_shared(r, 'step-error.dir', sub, (sh,), fns.calc_step_fn_vals_error, arg, pow=p, dir=d)
             if not ok:
                 continue
             try:
@@ -394,10 +629,12 @@ def run_word(r, case):
                 r.fail('step-error.dir', sub, 'malformed result', observed=ed)
                 continue
             for i in range(n):
-                pre = mean_fr(w[:i + 1])
-                post_a = mean_fr(w[i + 1:])
-                post_b = mean_fr(w[i:])
-                tol = 1e-9 * scale
+                pre = mean_fr(wx[:i + 1])
+                post_a = mean_fr(wx[i + 1:])
+                post_b = mean_fr(wx[i:])
+                # the two executions differ in the dir option only: tolerance relative to the errors themselves for the
+                # transformed variants (their absolute `scale` is dominated by the common level / the multiplier)
+                tol = 1e-9 * scale if plain else 1e-9 * max(base)
                 unchanged = abs(ed[i] - base[i]) <= tol
                 penal = ed[i] >= big - 1e-9 * abs(big) - tol
                 verdict = None      # True: wrong direction for d, False: allowed direction
@@ -419,17 +656,29 @@ def run_word(r, case):
                     r.cls('step-dir-ambiguous')
                     r.expect('step-error.dir', s2, unchanged or penal, 'error neither unchanged nor 10 x max error '
                              '(%r -> %r)' % (base[i], ed[i]), observed=ed, expected=base)
+        # explicit options followed by a call that relies on the defaults (pow=1, dir=None) on the same array
+        if p == 2:
+            sub = {'w': w, 'pow': 'default-after-pow2-dir', 'values': tag}
+            r.states += 1
+            r.transitions += 1
+            r.cls('step-default-after-explicit')
+            ok, ed = call_shared(r, 'step-error', sub, (sh,), fns.calc_step_fn_vals_error, arg)
+            if ok:
+                r.expect_close('step-error', sub, ed, [float(e) for e in ref_step_err(wx, 1)], rtol=1e-9, atol=0.0,
+                               scale=float(max(1, n * amax)) if plain else max(unit, n * amax))
 
     # ---- step levels
-    lev_tol = dict(rtol=1e-12, atol=1e-13, scale=float(amax))
+    if 'l' not in kinds:
+        return
+    lev_tol = dict(rtol=1e-12, atol=1e-13 * unit, scale=float(amax))
     for ind in range(1, n - 1):
-        want = (float(mean_fr(w[:ind])), float(mean_fr(w[ind + 1:])))
-        for cont in ('ndarray-f64', 'list-int'):
+        want = (float(mean_fr(wx[:ind])), float(mean_fr(wx[ind + 1:])))
+        for cont, shc in (((tag, sh), ('list-int', sh_list)) if plain else ((tag, sh),)):
             sub = {'w': w, 'ind': ind, 'values': cont}
             r.states += 1
-            r.cls('levels-interior')
-            vals = a_f.copy() if cont == 'ndarray-f64' else list(w)
-            ok, out = r.call('step-levels', sub, fns.calc_step_fn_steps_vals, vals, ind)
+            if plain:
+                r.cls('levels-interior')
+            ok, out = call_shared(r, 'step-levels', sub, (shc,), fns.calc_step_fn_steps_vals, shc.obj, ind)
             if ok:
                 try:
                     pre, post = out
@@ -437,14 +686,19 @@ def run_word(r, case):
                     r.fail('step-levels', sub, 'result is not a (pre, post) pair', observed=out)
                     continue
                 r.expect_close('step-levels', sub, [pre, post], list(want), **lev_tol)
-    err1 = ref_step_err(w, 1)
+    if 'e' not in kinds:
+        return
+    err1 = ref_step_err(wx, 1)
     emin = min(err1)
     amin = [i for i in range(n) if err1[i] == emin]
     sub = {'w': w, 'ind': None}
+    if not plain:
+        sub['values'] = tag
     r.states += 1
     r.transitions += 1
-    r.cls('levels-auto-interior' if all(0 < i < n - 1 for i in amin) else 'levels-auto-edge')
-    ok, out = r.call('step-levels.auto', sub, fns.calc_step_fn_steps_vals, a_f.copy())
+    if plain:
+        r.cls('levels-auto-interior' if all(0 < i < n - 1 for i in amin) else 'levels-auto-edge')
+    ok, out = call_shared(r, 'step-levels.auto', sub, (sh,), fns.calc_step_fn_steps_vals, arg)
     if ok:
         try:
             pre, post = out
@@ -455,10 +709,10 @@ def run_word(r, case):
             return
         good = False
         cands = []
-        tol = 1e-12 * amax + 1e-13
+        tol = 1e-12 * amax + 1e-13 * unit
         for i in amin:
-            a = mean_fr(w[:i])
-            b = mean_fr(w[i + 1:])
+            a = mean_fr(wx[:i])
+            b = mean_fr(wx[i + 1:])
             cands.append((None if a is None else float(a), None if b is None else float(b)))
             if (a is None or abs(pre - float(a)) <= tol) and (b is None or abs(post - float(b)) <= tol):
                 good = True
@@ -488,6 +742,7 @@ def run_spectra(r, case):
     sc = case['sc']
     z, rf, nf = [float(v) for v in case['zrn']]
     r.nontrivial += 1
+    r.cls('zr-product-above-0.7' if Fraction(repr(z)) * Fraction(repr(rf)) > Fraction('0.7') else 'zr-product-at-most-0.7')
     ts = period_grid()
     base = {'sc': sc, 'zrn': [z, rf, nf]}
     ds = design_spectra
@@ -525,6 +780,24 @@ def run_spectra(r, case):
                 ok, out = r.call('ch.forms', sub, _quiet, ds.c_h_factor, arg, sc)
             if ok:
                 r.expect_close('ch.forms', sub, out, want, rtol=1e-12, atol=0.0)
+                if form == 'ndarray':
+                    r.expect('ch.argument-unchanged', sub, _same_container(arg, np.array(ts)),
+                             'c_h_factor modified the period array', observed=arg, expected=ts)
+        # (e) A-B-A: the grid, another period list of the same length with the same first and last period, the grid again
+        other = [ts[0]] + [0.5 * (a + b) for a, b in zip(ts[1:-1], ts[2:])] + [ts[-1]]
+        sub = dict(base, form='list', when='again-after-other-periods')
+        r.states += 3
+        r.transitions += 2
+        r.cls('aba-spectra')
+        for fname, fn, extra in (('ch', ds.c_h_factor, (sc,)), ('sd', ds.sd_nzs, (sc, z, rf, nf))):
+            res = []
+            for arg in (list(ts), other, list(ts)):
+                ok, out = r.call(fname + '.repeatable', dict(sub, fn=fname), _quiet, fn, arg, *extra)
+                res.append(np.array(out, dtype=float) if ok else None)
+            if res[0] is not None and res[2] is not None:
+                r.expect(fname + '.repeatable', dict(sub, fn=fname), bits_equal(res[0], res[2]),
+                         'the same call gives a different result after a call with other periods', observed=res[2],
+                         expected=res[0])
 
     # ---- S_d = C_h(T) T^2 Z N R
     sd = {}
@@ -724,14 +997,25 @@ def snippet(case, v):
     k = case.get('k')
     head = "import numpy as np, eqsig\nfrom eqsig import design_spectra as ds\ncase = %r\nsub = %r\n" % (case, sub)
     if k == 'interp':
-        return head + ("xf = np.array(case['xf']); f = np.array(case['f'], float)\n"
+        return head + ("# sub.get('nodes') / sub.get('table'): transformed node set / table (NODE_VARIANTS, TABLE_VARIANTS in c20.py)\n"
+                       "xf = np.array(case['xf']); f = np.array(case['f'], float)\n"
                        "x = sub.get('x0', sub.get('x'))\n"
                        "if sub['fn'] == 'interp2d': print(eqsig.fns.interp2d(np.array(x if isinstance(x, list) else "
                        "sorted(set(case['xf'])), float), xf, f))\n"
                        "else: print(eqsig.fns.interp_left(x if not isinstance(x, str) else xf, xf, "
                        "None if sub['col'] is None else f[:, sub['col']]))\n")
     if k == 'word':
-        return head + ("w = np.array(case['w'], float)\n"
+        return head + ("# sub.get('values') names the container / transformation of the word (w*mult+offset, WORD_VARIANTS in\n"
+                       "# mcheck/props/c20.py); the SAME array object is used for all calls of a case\n"
+                       "w = np.array(case['w'], float)\n"
+                       "v = str(sub.get('values'))\n"
+                       "if '2^-30' in v: w = w * 2.0 ** -30\n"
+                       "if 'w*2^20' in v: w = w * 2.0 ** 20\n"
+                       "if 'w+2^20' in v: w = w + 2.0 ** 20\n"
+                       "if 'i16' in v: w = (w * 10000).astype(np.int16)\n"
+                       "if 'u8' in v: w = (w * 50 + 100).astype(np.uint8)\n"
+                       "if 'i64' in v: w = w.astype(np.int64)\n"
+                       "if 'f32' in v: w = w.astype(np.float32)\n"
                        "if 'steps' in sub: print(eqsig.fns.calc_roll_av_vals(w, sub['steps'], mode=sub.get('mode') or 'forward'))\n"
                        "elif 'pow' in sub: print(eqsig.fns.calc_step_fn_vals_error(w if sub.get('values') != 'list-int' "
                        "else case['w'], pow=sub['pow'], dir=sub.get('dir')))\n"
